@@ -10,8 +10,8 @@ from harness import dataset_gen as G
 class C09(core.Check):
     pid = 'C09'
     driver = 'drv_c09'
-    quick_cases = 1200
-    thorough_cases = 24000
+    quick_cases = 3000
+    thorough_cases = 60000
     rule = ('3 of 4 cases are histories: a pandas DataFrame (0-12 rows; hidden row id in every column: rid numerical, '
             'c categorical, y target; 12 index labelings incl. offset / permuted / negative / string / float / duplicate '
             'labels made by set_index, concat and iloc; 10 split-assignment patterns incl. empty splits; 6 split-column '
@@ -285,7 +285,7 @@ class C09(core.Check):
                         continue
                     for seed in seeds:
                         case = {'kind': 'gen', 'n': n, 'seed': seed, 'rt': rt, 'rv': rv, 'it': it,
-                                'prior': [seed + 1], 'burn': 0}
+                                'prior': [seed + 1, 4242], 'burn': 0}
                         # the raising combinations do not depend on the seed: one seed is enough
                         if seed != seeds[0] and G.ref_split(case) == 'raises':
                             continue
